@@ -273,6 +273,10 @@ class NamedGlob:
             path = Path(path)
             if path.is_dir():
                 path = path / ""
+            elif not os.path.lexists(path):
+                # For a trailing `**`, `glob` yields the base directory without checking
+                # that it exists (or that it is a directory), e.g. `missing/` for `missing/**`.
+                continue
             paths.append(path)
         self.extend(paths)
 
